@@ -90,11 +90,11 @@ def new_groups():
     return collections.defaultdict(Group)
 
 
-def c09_groups(pl, res, groups, tier, cov, tag):
+def c09_groups(pl, res, groups, tier, cov, tag, reps=None):
     """all behaviours of one input (imposed schedules, module orders, natural hash order in fresh
     processes) must agree on Ok/Err and on the bytes of every output file"""
     n_checked = 0
-    nat = natural_runs(pl, res, 2 if tier == "quick" else 4, tag)
+    nat = natural_runs(pl, res, reps or (2 if tier == "quick" else 4), tag)
     for key, g in groups.items():
         sigs = collections.Counter(g.sigs)
         case0, obs0, kfc, _ = g.first
@@ -346,6 +346,13 @@ def run_graph(pid, tier):
         for k in ("states", "transitions", "traces_validated_against_impl"):
             cov[k] += bc[k]
         cov["checker_cmd"] += " ; " + bc["checker_cmd"]
+        # diamonds: the emitted text lists the competing paths of a repeated base (hash-ordered containers must not leak into it)
+        pl4 = Pipeline(tier, module="MC_Inherit", cfgs={"quick": ["MC_Inherit_q3.cfg"], "thorough": ["MC_Inherit_q3.cfg"]}, name="graph4",
+                       replay_flags=["--emit-dir", os.path.join(WORK, "run", f"graph4-{tier}", "emit"), "--sched"])
+        groups4 = new_groups()
+        for case, obs in pl4.pairs():
+            groups4[input_key(case)].add(case, obs, None)
+        n_checked += c09_groups(pl4, res, groups4, tier, cov, "diamond", reps=6)
         # a third family through the file system: the result must not depend on what an earlier build
         # (here: the same tree at the other pointer width) left in the output directory
         d3 = os.path.join(WORK, "run", f"graph3-{tier}")
@@ -361,6 +368,22 @@ def run_graph(pid, tier):
         # ... nor on how the input directory is spelled or which entry point is used (pyxis::build with an absolute path,
         # `./input`, `input/`, or pyxis::build_script reading ./types with the pointer width from the cargo environment)
         by_set = collections.defaultdict(list)
+        # ... nor on the run: the same trees twice more in fresh processes (a failing module must fail every time)
+        again = []
+        for r in range(2):
+            op, _ = harness.replay(pl3.cases_path, os.path.join(pl3.dir, f"again{r}"),
+                                   ["--emit-dir", os.path.join(pl3.dir, f"emit_again{r}"), "--via-fs", "--style-seed", str(seed())])
+            again.append({o["id"]: o for o in tlc.read_ndjson(op)})
+        for case, clean in pl3.pairs():
+            for run in again:
+                o = run.get(case["id"])
+                if o is not None and outcome_sig(o) != outcome_sig(clean):
+                    n_checked += 1
+                    res.violation("pyxis::build gives different results for the same tree in different processes",
+                                  payload(case, clean, {"first": clean.get("outcome"), "again": o.get("outcome"),
+                                                        "files_first": clean.get("files") and [(f["rel"], f["hash"]) for f in clean["files"]],
+                                                        "files_again": o.get("files") and [(f["rel"], f["hash"]) for f in o["files"]]}))
+                    break
         for case, clean in pl3.pairs():
             inp = {k: v for k, v in case["input"].items() if k != "indir"}
             inp["mods"] = sorted(inp["mods"], key=lambda m: m["path"])
